@@ -3,7 +3,7 @@ from ._engine import engine_check
 
 
 def run(ctx):
-    return engine_check(ctx, "PropC01", [("one_sided", 2000, 40000), ("disjoint", 2000, 40000), ("conflicts", 2000, 40000), ("edit_vs_delete", 1000, 20000),
+    return engine_check(ctx, "PropC01", [("one_sided", 1200, 40000), ("disjoint", 1200, 40000), ("conflicts", 1200, 40000), ("edit_vs_delete", 1000, 20000),
                          ("tree_delete_vs_child_change", 800, 20000)],
                         "run rejected by the monitor (C01: views differ at quiet, or no quiet state within the step bound)",
                         stream_b="C01", algo=True)
